@@ -75,6 +75,12 @@ def check_binary(res, op, UA, PA, WA, UB, PB, WB, tag):
     else:
         A, B = lib.mk_curve(UA, PA, WA), lib.mk_curve(UB, PB, WB)
     sa, sb = lib.snap_curve(A), lib.snap_curve(B)
+    if tag.get("data") != "int_arrays":
+        # the same operation on float (and int-knot) curves with numerically equal knots runs FIRST: the exact result must
+        # not depend on what was computed before for another number type (value-keyed tables)
+        for rep in ("float", "int"):
+            Af, Bf = lib.mk_curve(UA, PA, WA, rep), lib.mk_curve(UB, PB, WB, rep)
+            lib.outcome({"+": lambda: Af + Bf, "-": lambda: Af - Bf, "*": lambda: Af * Bf, "/": lambda: Af / Bf, "@": lambda: Af @ Bf}[op])
     fn = {"+": lambda: A + B, "-": lambda: A - B, "*": lambda: A * B, "/": lambda: A / B, "@": lambda: A @ B}[op]
     o = lib.outcome(fn)
     tags = dict(op=op, rational=("A" if WA is not None else "") + ("B" if WB is not None else "") or "none",
